@@ -158,6 +158,12 @@ def r10_4(ctx, rr):
     ok_chunk = it[0] == "call" and it[1].endswith("chunks_mut") and it[2][-1] == words_chunk
     rr.instances += 1
     rr.check(ok_chunk, "try_chunks_mut:words-per-chunk", "each chunk must have ceil(chunk_size * bit_width / BITS) words; found %s" % tshow(it)[:200], F.loc(node))
+    # slice::chunks_mut panics on a chunk size of 0: the words per chunk must be known to be positive
+    rr.instances += 1
+    pos_ok = K.entails(atom_ne(bw, ("int", 0))) and K.entails(atom_ne(cs, ("int", 0)))
+    rr.ob(pos_ok, key="try_chunks_mut:chunk-words-positive", sample={"established": K.show()[:6]})
+    if not pos_ok:
+        rr.violate("try_chunks_mut:chunk-words-positive", "try_chunks_mut hands ceil(chunk_size * bit_width / BITS) to slice::chunks_mut without excluding 0: with bit width 0 (or chunk size 0) `chunks_mut` panics (\"chunk size must be non-zero\") instead of try_chunks_mut returning Ok or Err", F.loc(node))
     # success condition: len <= chunk_size || (chunk_size * bit_width) % BITS == 0
     ifs = [n for n in walk(b.body) if n.get("k") == "If"]
     ok_c = False
@@ -448,3 +454,47 @@ def r10_7(ctx, rr):
         rr.ob(ok, key=key, sample={"site": show(F, n)[:80], "index": idx, "rule": how})
         if not ok:
             rr.violate(key, "apply_in_place_unchecked (reached from the safe apply_in_place for every vector) accesses the backend with `%s` (index %s) and the index is not established to be below the number of words holding the contents: %s; established: %s" % (show(F, n)[:80], idx, how, "; ".join(known) or "nothing"), F.loc(n))
+
+
+@rule("R14.4", props=["C14", "C10"], floor=2, title="apply_in_place_unchecked: the store into the last word keeps the bits that follow the last element")
+def r14_4(ctx, rr):
+    """The write buffer holds only elements; assigning it to the last word clears the bits between
+    len * bit_width and the end of that word. The stored value must be `write_buffer | (old & (MAX << r))`
+    (r = len * bit_width % BITS; nothing to keep when r == 0)."""
+    F = ctx.F()
+    b = F.one(r"^<bits::bit_field_vec::BitFieldVec<W, B> as traits::bit_field_slice::BitFieldSliceMut<W>>::apply_in_place_unchecked$")
+    inl = ctx.memo("inliner", lambda: make_inliner(F))
+    slf = ("var", "self", b.params[0]["id"])
+    be = ("field", slf, "bits")
+    stores = []
+
+    def is_last(t):
+        return t[0] == "call" and t[1].endswith("saturating_sub") and len(t[2]) == 2 and t[2][1] == ("int", 1)
+
+    def on_node(W, n, K):
+        if n.get("k") == "Assign" and W.debug_depth == 0:
+            l = n["l"]
+            while l.get("k") == "Unary" and l.get("op") == "*":
+                l = l["e"]
+            if l.get("k") == "MethodCall" and l["name"] == "get_unchecked_mut" and mentions(W.T.term(l["recv"]), lambda x: x == be):
+                idx = W.expand(W.T.term(l["args"][0]))
+                if is_last(idx):
+                    stores.append((n, canon_masks(W.expand(W.T.term(n["r"]))), idx))
+    Walker(F, b, on_node=on_node, inline=inl).run()
+    if len(stores) < 2:
+        raise AnchorMissing("apply_in_place_unchecked: expected a store into the last word in each of the two paths, found %d" % len(stores))
+    for n, t, idx in stores:
+        rr.instances += 1
+        ok = False
+        why = tshow(t)[:200]
+        # write_buffer | tail, tail = ite(r == 0, 0, old_last & !lowmask(r))
+        if t[0] == "op" and t[1] == "|":
+            for a, c in ((t[2], t[3]), (t[3], t[2])):
+                if mentions(c, lambda x: x[0] == "un" and x[1] == "!" and x[2][0] == "lowmask") and mentions(c, lambda x: x[0] == "call" and x[1].endswith("get_unchecked") and mentions(x, lambda y: y == be)):
+                    keep = [x for x in subterms(c) if x[0] == "un" and x[1] == "!" and x[2][0] == "lowmask"]
+                    r = keep[0][2][1]
+                    if r[0] == "op" and r[1] == "%" and mentions(r[2], lambda x: x == ("field", slf, "len")) and mentions(r[2], lambda x: x == ("field", slf, "bit_width")):
+                        ok = True
+        rr.ob(ok, key="apply_in_place_unchecked:last-word-keeps-tail", sample={"store": show(F, n)[:80], "value": why})
+        if not ok:
+            rr.violate("apply_in_place_unchecked:last-word-keeps-tail", "apply_in_place_unchecked overwrites the last word with `%s`: the bits of that word after the last element (storage outside the logical contents) are not preserved; expected `write_buffer | (old & (MAX << (len * bit_width %% BITS)))`" % why, F.loc(n))
